@@ -150,6 +150,13 @@ func genSegment(r *rand.Rand, canonical bool) string {
 		e, _ := pick(r, pathPieces[4:8])
 		sb.WriteString("@" + string(alnum[r.Intn(len(alnum))]) + e)
 	}
+	// and the combination ':' '/' '/' ... '@' ... '%xx' (a "://" inside the decoded path, spelt with
+	// an escaped slash, followed by an '@' and an escape in a later segment)
+	if !canonical && r.Intn(80) == 0 {
+		e, _ := pick(r, pathPieces[4:8])
+		at := []string{"@", "%40"}[r.Intn(2)]
+		sb.WriteString(":%2f/" + at + string(alnum[r.Intn(len(alnum))]) + e)
+	}
 	return sb.String()
 }
 
